@@ -75,7 +75,7 @@ func init() {
 		},
 		Run:            c19Run,
 		Replay:         c19Replay,
-		QuickBudget:    52 * time.Second,
+		QuickBudget:    240 * time.Second,
 		ThoroughBudget: 9 * time.Minute,
 	})
 }
